@@ -43,6 +43,20 @@ impl D {
                 _ => 0,
             }
     }
+    /// Device-specific feature bits whose negotiation puts no obligation on the driver: they only
+    /// announce that a read-only configuration field is valid (block geometry / block size /
+    /// topology, link speed) or name the one mode the driver has anyway (vsock stream sockets).
+    /// Accepting one of them is within "accepts only offered features that the driver supports"
+    /// whether or not the driver goes on to read the field; every other bit outside `supported`
+    /// changes the protocol between driver and device and must not be accepted.
+    pub fn passive(self) -> u64 {
+        match self {
+            D::Blk => 1 << 4 | 1 << 6 | 1 << 10,
+            D::NetRaw | D::Net => 1 << 63,
+            D::Socket => 1 << 0,
+            _ => 0,
+        }
+    }
     pub fn optional_bits(self) -> Vec<u64> {
         let mut v = vec![1u64 << 28, 1 << 29, 1 << 32, 1 << 33];
         let s = self.supported() & !COMMON;
@@ -252,7 +266,7 @@ pub fn check(c: &HCase, st: &mut Stats) -> Result<(), String> {
     let _ = offered;
     // what the device really offered (legacy transports mask VERSION_1 and the high word)
     let eff = if c.kind.legacy() && !c.legacy_raw_offer { c.offered & !(1 << 32) & 0xffff_ffff } else { c.offered };
-    let written = automaton(&ev, eff, c.drv.supported()).map_err(|m| format!("{:?} on {:?} offered {:#x}: {}", c.drv, c.kind, c.offered, m))?;
+    let written = automaton(&ev, eff, c.drv.supported() | c.drv.passive()).map_err(|m| format!("{:?} on {:?} offered {:#x}: {}", c.drv, c.kind, c.offered, m))?;
     // the usage phase (feature-gated behaviour judged by the reference device)
     if let Err(m) = r {
         // an early notification is reported by the automaton above; everything else is the usage phase's finding
